@@ -98,7 +98,7 @@ class C11(Check):
     required_probes = {'thorough': ['two_kernels_one_source', 'same_order_pair', 'pop', 'adaptive', 'prelude', 'dde_approx']}
 
     def strata(self, tier):
-        return [('S-scalar', 4), ('S-vec', 4), ('S-conn', 2), ('S-adaptive', 2), ('S-interleaved', 2)]
+        return [('S-scalar', 4), ('S-vec', 4), ('S-conn', 2), ('S-adaptive', 2), ('S-interleaved', 2), ('S-big', 1)]
 
     def generate(self, rng, stratum, tier):
         dt = rng.choice([1e-3, 2e-3, 5e-3])
@@ -141,6 +141,11 @@ class C11(Check):
                               delays=delays, hier=rng.random() < 0.2,
                               # multi-operator nodes: the kernel's source variable is also read inside its node
                               readouts=(0.5, 0.0, 0.5) if rng.random() < 0.25 else None)
+        if stratum == 'S-big':
+            # one vectorized group of 10-16 nodes with kernel edges in a ring / fan-out / converging pattern
+            spec = models.gen_big(rng, kind=rng.choice(['converge', 'converge', 'ring', 'fan']), delays=delays)
+            cfg['vectorize'] = rng.random() < 0.85
+            cfg['steps'] = rng.randint(20, 40)
         return {'spec': spec, 'cfg': cfg}
 
     # ---------------------------------------------------------------------------------------------------
